@@ -373,11 +373,15 @@ def excl_monitor(prop, m, trace):
     """a rejected Exclusive event log is a failing input of a property only if the rejection is on something the property states"""
     text = m.get("expected", "") + " " + m.get("observed", "")
     if prop == "C09":
+        if m.get("op", "").split(" ")[0] in ("firstrace", "waitend") and "overlaps=0 " not in m.get("observed", ""):
+            return "first calls racing on a fresh Exclusive: the harness counted work functions of one key executing at the same time"
         if "overlap key=" in trace:
             return "the harness observed two work functions of one key executing at the same time (the 'overlap' line of the trace)"
         if any(k in text for k in _EXCL_C09_OBS):
             return "calls of another key were delayed by a busy key / work functions overlapped"
         return None
+    if m.get("op", "").split(" ")[0] in ("firstrace", "waitend") and ("hung=0" not in m.get("observed", "") or "wrong=0" not in m.get("observed", "")):
+        return "first calls racing on a fresh Exclusive: a Call got no outcome or another one than its key's"
     if "unanswered " in trace:
         return "a call was made and returned, but no execution of its key began after it (the 'unanswered' line of the trace: harness-side lost-call monitor)"
     if any(k in text for k in _EXCL_C10_OBS):
@@ -386,7 +390,7 @@ def excl_monitor(prop, m, trace):
 
 _EXCL_RULE = ("exclusive: 2-10 (thorough: up to 27) calls of all styles (Call, CallAfter, CallAsync, Start, StartAfter, CallWithOptions with ExclusiveWork / "
               "ExclusiveStart / ExclusiveWait) on 1-3 keys of one real Exclusive, each from its own goroutine; harness work functions resolve at once, block on a gate before or "
-              "after resolving (the resolve-to-return gap), resolve twice, resolve from three goroutines at once, resolve with an error result and keep running, or return without resolving; 16 forced handover schedules (8 of them with a Start as the call that arrives while the runner sits in its clear hook, and nothing else on that key afterwards: a lost Start shows as an 'unanswered' line of the harness-side lost-call monitor); the controller releases gates in a PRNG interleaving and, with several keys, "
+              "after resolving (the resolve-to-return gap), resolve twice, resolve from three goroutines at once, resolve with an error result and keep running, or return without resolving; every fifth case is `firstrace`: for 350 ms, fresh zero-value instances whose 3-9 first Call / Start calls race behind one gate on 1-2 keys, harness-side overlap counter; every tenth is `waitend`: a CallAfter whose 0.3-1.2 ms wait ends while 3-6 goroutines keep calling Start / Call / StartAfter on its key and another; 16 forced handover schedules (8 of them with a Start as the call that arrives while the runner sits in its clear hook, and nothing else on that key afterwards: a lost Start shows as an 'unanswered' line of the harness-side lost-call monitor); the controller releases gates in a PRNG interleaving and, with several keys, "
               "keeps key 0's work blocked until every caller of the other keys has returned (a blocked key is reported as !stuck); the verif hook events (attach with count, "
               "escape, deliver, run, swap, work, resolve, returned, clear with count), attributed to calls through the creating goroutine, plus the functions' own events and the "
               "received outcomes must be accepted step by step by one instance of the Lean transition system per key (item identity, counts, who becomes the runner and when, "
